@@ -288,6 +288,17 @@ def ob_pow_int(a: int, b: int) -> Optional[bool]:
     return same(r, exp)
 
 
+POW_EXPONENTS = (0.5, -0.5, 2.5, 400, -400, 1000, 3, -3, 0, 1)
+
+
+def ob_pow_float(bi, a: Union[float, int]) -> Optional[bool]:
+    """a ^ b (b from a concrete pool) is a number or an error value: never complex, never raises"""
+    if not in_dom(a) or isinstance(a, bool):
+        return None
+    r = FIXUP(a, "Pow", POW_EXPONENTS[bi])
+    return is_excel_scalar(r)
+
+
 def obligations(tier):
     obs = []
 
@@ -325,4 +336,9 @@ def obligations(tier):
     add("cmp_case", "ob_cmp_case", (), 90, group="cmp")
     add("cmp_trans", "ob_cmp_trans", (), 300 if tier == "thorough" else 120, group="cmp")
     add("pow_int", "ob_pow_int", (), 200, group="pow")
+    for bi in range(len(POW_EXPONENTS)):
+        e = POW_EXPONENTS[bi]
+        obs.append(Obligation(PROP, f"pow_float[{e}]", __name__, "ob_pow_float", (bi,), timeout=60, float_mode="real",
+                              sig="a: float" if (isinstance(e, int) and e >= 0) else "a: Union[float, int]",
+                              group="pow"))
     return obs
